@@ -246,3 +246,32 @@ func pathTo(parent map[*ssa.Function]*ssa.Function, f *ssa.Function) string {
 	}
 	return strings.Join(names, " -> ")
 }
+
+// RealCallers: like Callers, but compiler-synthesised wrappers (promoted-method
+// wrappers, bound-method closures, thunks) are replaced by their own callers; a
+// wrapper that nobody calls contributes nothing.
+func (p *Program) RealCallers(fn *ssa.Function) []*ssa.Function {
+	set := map[*ssa.Function]bool{}
+	seen := map[*ssa.Function]bool{}
+	var visit func(f *ssa.Function, d int)
+	visit = func(f *ssa.Function, d int) {
+		for _, c := range p.Callers(f) {
+			if seen[c] {
+				continue
+			}
+			seen[c] = true
+			if c.Synthetic != "" && d < 5 {
+				visit(c, d+1)
+				continue
+			}
+			set[c] = true
+		}
+	}
+	visit(fn, 0)
+	var out []*ssa.Function
+	for f := range set {
+		out = append(out, f)
+	}
+	sort.Slice(out, func(i, j int) bool { return fnLess(out[i], out[j]) })
+	return out
+}
